@@ -15,7 +15,7 @@ inside the defective region is still seen.  torch.max breaks ties towards the fi
 (documented and measured: 0 deviations on 3000 tied maps), so the tie-break is pinned:
 a maximal-but-different cell is a disagreement.
 
-Refined points: tolerance 5e-5·max(1, (r+1)·Σ|P|/|ΣP|) as in C06; |ΣP| < 1e-3·Σ|P| = knife-edge.
+Refined points: tolerance 5e-5·max(1, ((p+1)/2)·Σ|P|/|ΣP|) as in C06; |ΣP| < 1e-3·Σ|P| = knife-edge.
 "Refinement reduces the error on a Gaussian" (no overshoot) is NOT a theorem; it is measured
 here and reported in the evidence as `test_error_reduced` (a test, not a verdict).
 """
@@ -25,7 +25,7 @@ from fractions import Fraction
 
 from common import CORPUS, Check, call, import_repo, lst, rat, run_check, run_driver
 
-from c06 import patch_of, patch_signatures
+from c06 import is_p1_raise, patch_of, patch_signatures, patch_size
 
 THEOREMS = [
     "SleapVerif.C07.global_attains_max",
@@ -99,14 +99,15 @@ def gen_case(rng):
     kinds = [rng.choice(KINDS) for _ in range(S * C)]
     maps = [gen_lattice_map(rng, h, w, k, den) for k in kinds]
     return {"S": S, "C": C, "h": h, "w": w, "den": den, "maps": maps, "thr": rng.choice(THRS)[0],
-            "r": rng.choice([0, 1, 2, 2, 3]), "kind": "+".join(sorted(set(kinds))), "shape": shape}
+            "p": rng.choice([0, 1, 2, 3, 3, 4, 5, 5, 6, 7, 8]), "kind": "+".join(sorted(set(kinds))), "shape": shape}
 
 
 def gen_gauss_case(rng):
     """sub-pixel Gaussian bumps (float32 values, not on a lattice); per channel its true centre"""
-    h, w = rng.randrange(7, 14), rng.randrange(7, 14)
     S, C = rng.randrange(1, 3), rng.randrange(1, 4)
-    r = rng.choice([1, 2, 2, 3])
+    p = rng.choice([2, 3, 4, 5, 5, 6, 7, 8])  # odd and even integral_patch_size
+    r = p // 2
+    h, w = rng.randrange(2 * r + 3, 2 * r + 10), rng.randrange(2 * r + 3, 2 * r + 10)
     maps, truth = [], []
     for _ in range(S * C):
         sigma = rng.choice([0.75, 1.0, 1.5, 2.0, 2.5])
@@ -120,7 +121,7 @@ def gen_gauss_case(rng):
         maps.append(m)
         truth.append({"cx": cx, "cy": cy, "dx": dx, "dy": dy, "sigma": sigma, "amp": amp})
     return {"S": S, "C": C, "h": h, "w": w, "den": 1, "maps": maps, "thr": rng.choice([0.2, 0.1, 0.5]),
-            "r": r, "kind": "gauss", "shape": "gauss", "truth": truth}
+            "p": p, "kind": "gauss", "shape": "gauss", "truth": truth}
 
 
 # ------------------------------------------------------------------ implementation side
@@ -159,7 +160,7 @@ class Impl:
 
 def model_line(case, cms):
     flat = [rat(float(x)) for x in cms.flatten().tolist()]
-    return (f"global {rat(thr_rat(case['thr']))} {case['r']} {case['S']} {case['C']} {case['h']} {case['w']} "
+    return (f"global {rat(thr_rat(case['thr']))} {patch_size(case)} {case['S']} {case['C']} {case['h']} {case['w']} "
             + lst(flat))
 
 
@@ -216,16 +217,16 @@ def oracle_rough(np, a2, thr, got):
     return None, sigs
 
 
-def oracle_refined(np, a2, rough, refined, r):
+def oracle_refined(np, a2, rough, refined, p):
     """valid channels move at most half a patch; invalid channels stay NaN; returns (why, signatures)"""
     if rough[0] is None:
         if refined[0] is not None or refined[1] is not None:
             return f"invalid channel became {refined}", []
         return None, []
-    half = (2 * r + 1) / 2
+    half = p / 2
     if refined[0] is None or refined[1] is None or not (abs(refined[0] - rough[0]) <= half + 1e-4
                                                          and abs(refined[1] - rough[1]) <= half + 1e-4):
-        P = patch_of(np, a2[None, None], 0, 0, int(rough[0]), int(rough[1]), r)
+        P = patch_of(np, a2[None, None], 0, 0, int(rough[0]), int(rough[1]), p)
         sigs = patch_signatures(P)
         hh, ww = a2.shape
         inb = 0 <= int(rough[1]) < hh and 0 <= int(rough[0]) < ww
@@ -240,16 +241,16 @@ def run_case(chk, I, case, mline, f07_known):
     np = I.np
     cms = I.tensor(case)
     a = cms.numpy()
-    S, C, h, w, thr, r = case["S"], case["C"], case["h"], case["w"], case["thr"], case["r"]
+    S, C, h, w, thr, p = case["S"], case["C"], case["h"], case["w"], case["thr"], patch_size(case)
     model = parse_model(mline, S * C)
-    small = {k: case[k] for k in ("S", "C", "h", "w", "den", "maps", "thr", "r")}
+    small = {**{k: case[k] for k in ("S", "C", "h", "w", "den", "maps", "thr")}, "p": p}
 
     rough = I.rough(cms, thr)
     nvalid = sum(1 for m in model if m["fix"][0] is not None)
-    chk.case((S, C, h, w, thr, r, a.tobytes()) if nvalid and h * w > 1 else None,
-             {"shape": [S, C, h, w], "thr": thr, "r": r, "kind": case.get("kind"), "valid": nvalid}
+    chk.case((S, C, h, w, thr, p, a.tobytes()) if nvalid and h * w > 1 else None,
+             {"shape": [S, C, h, w], "thr": thr, "p": p, "kind": case.get("kind"), "valid": nvalid}
              if nvalid and case.get("kind") != "gauss" else None,
-             tags=[f"shape:{case.get('shape')}", f"r:{r}", f"valid:{nvalid}/{S * C}" if S * C <= 2 else
+             tags=[f"shape:{case.get('shape')}", f"p:{p}", f"valid:{nvalid}/{S * C}" if S * C <= 2 else
                    ("valid:all" if nvalid == S * C else "valid:none" if nvalid == 0 else "valid:mixed")])
     if rough and rough[0] == "raise":
         chk.disagree("find_global_peaks_rough raises where the model does not", small, str(rough), "ok")
@@ -273,7 +274,7 @@ def run_case(chk, I, case, mline, f07_known):
                 chk.disagree("find_global_peaks_rough == Peaks.globalRoughAsIs (inside F-C07)", {**small, "channel": [s, c]},
                              list(g), [float(x) if x is not None else None for x in m["asis"]])
         if why:
-            one = {"S": 1, "C": 1, "h": h, "w": w, "den": case["den"], "maps": [case["maps"][k]], "thr": thr, "r": r}
+            one = {"S": 1, "C": 1, "h": h, "w": w, "den": case["den"], "maps": [case["maps"][k]], "thr": thr, "p": p}
             chk.fail(f"C07 fails on find_global_peaks_rough: {why}", one, list(g), sigs)
 
     none_ref = I.full(cms, thr, None, 5)
@@ -288,10 +289,14 @@ def run_case(chk, I, case, mline, f07_known):
             if str(alone[0]) != str(rough[k]):
                 chk.fail("C07: result of one channel depends on the other maps in the batch",
                          {**small, "channel": [s, c]}, {"in_batch": rough[k], "alone": alone[0]})
-    if r == 0:
+    if p == 0:
         return
-    p = 2 * r + 1
     refined = I.full(cms, thr, "integral", p)
+    if is_p1_raise(refined, p):
+        # documented behaviour of the pinned tree (finding F-C06p1); the model's value is rough + 0
+        chk.fail("C07: find_global_peaks(integral, integral_patch_size=1) raises inside kornia", small, str(refined),
+                 ["patch_size_1"])
+        return
     if refined and refined[0] == "raise":
         chk.disagree("find_global_peaks(integral) raises where the model does not", small, str(refined), "ok")
         chk.fail("C07: find_global_peaks(integral) raised", small, str(refined))
@@ -306,7 +311,7 @@ def run_case(chk, I, case, mline, f07_known):
                 if f[0] is not None or f[1] is not None:
                     chk.disagree("find_global_peaks(integral): invalid channel stays NaN", {**small, "channel": [s, c]}, list(f), None)
             else:
-                P = patch_of(np, a, s, c, int(g[0]), int(g[1]), r)
+                P = patch_of(np, a, s, c, int(g[0]), int(g[1]), p)
                 z, az = float(P.sum()), float(np.abs(P).sum())
                 if mp == "inf" or abs(z) < 1e-3 * az:
                     chk.knife_edges += 1
@@ -315,18 +320,18 @@ def run_case(chk, I, case, mline, f07_known):
                     chk.disagree("find_global_peaks(integral) point == Peaks.globalRefineFlat", {**small, "channel": [s, c]},
                                  list(f), [float(mp[0]), float(mp[1])])
                 else:
-                    tol = 5e-5 * max(1.0, (r + 1) * az / abs(z))
+                    tol = 5e-5 * max(1.0, (p + 1) / 2 * az / abs(z))
                     ex, ey = abs(f[0] - float(mp[0])), abs(f[1] - float(mp[1]))
                     chk.extra["max_refine_err_over_tol"] = max(chk.extra.get("max_refine_err_over_tol", 0.0), max(ex, ey) / tol)
                     chk.extra["max_refine_abs_err_over_kappa"] = max(chk.extra.get("max_refine_abs_err_over_kappa", 0.0), max(ex, ey) * abs(z) / az)
                     if not (ex <= tol and ey <= tol):
                         chk.disagree("find_global_peaks(integral) point == Peaks.globalRefineFlat (tol)",
                                      {**small, "channel": [s, c]}, list(f[:2]), [float(mp[0]), float(mp[1])])
-        why, sigs = oracle_refined(np, a[s, c], g, f, r)
+        why, sigs = oracle_refined(np, a[s, c], g, f, p)
         if bool((a[s, c] < 0).any()):
             chk.extra["excluded_region_cases"] = chk.extra.get("excluded_region_cases", 0) + 1
         if why:
-            one = {"S": 1, "C": 1, "h": h, "w": w, "den": case["den"], "maps": [case["maps"][k]], "thr": thr, "r": r}
+            one = {"S": 1, "C": 1, "h": h, "w": w, "den": case["den"], "maps": [case["maps"][k]], "thr": thr, "p": p}
             chk.fail(f"C07 fails on find_global_peaks(integral, p={p}): {why}", one, list(f), sigs)
 
     # ---- Gaussian bumps: symmetric-unmoved / toward-centre (property, inside patches) + error reduction (test)
@@ -340,7 +345,7 @@ def run_case(chk, I, case, mline, f07_known):
             chk.fail("C07: rough peak of a Gaussian is not the cell nearest to its centre", {**small, "channel": [s, c]},
                      {"rough": g, "truth": t})
             continue
-        inside = r <= cx < w - r and r <= cy < h - r
+        inside = p // 2 <= cx < w - p // 2 and p // 2 <= cy < h - p // 2  # the crop reads cells c-p//2 .. c+p//2
         ox, oy = f[0] - g[0], f[1] - g[1]
         chk.tag("gauss:inside" if inside else "gauss:border")
         if inside:
@@ -368,7 +373,7 @@ def witness_case(wt):
     for (x, y, v) in wt["cells"]:
         m[y][x] = v
     return {"S": 1, "C": 1, "h": wt["h"], "w": wt["w"], "den": 1, "maps": [m], "thr": wt["thr"],
-            "r": (wt.get("patch", 1) - 1) // 2, "kind": "witness", "shape": "witness"}
+            "p": wt.get("patch", 0), "kind": "witness", "shape": "witness"}
 
 
 def main(chk: Check):
@@ -395,8 +400,13 @@ def main(chk: Check):
                              detail=f"impl={got} repaired-model={m['fix']}")
         else:
             g = I.rough(cms, case["thr"])[0]
-            f = I.full(cms, case["thr"], "integral", ent["witness"]["patch"])[0]
-            why, sigs = oracle_refined(np, cms.numpy()[0, 0], g, f, case["r"])
+            full = I.full(cms, case["thr"], "integral", ent["witness"]["patch"])
+            if is_p1_raise(full, case["p"]):
+                why, sigs = "raised", ["patch_size_1"]
+                f = full
+            else:
+                f = full[0]
+                why, sigs = oracle_refined(np, cms.numpy()[0, 0], g, f, case["p"])
             chk.known_replay(ent["id"], still_fails=bool(why) and ent["signature"] in sigs, detail=f"rough={g} refined={f}")
 
     # ---- corpus, fixed cases, generated cases
@@ -406,12 +416,12 @@ def main(chk: Check):
             c = json.loads(fp.read_text())
             c.setdefault("kind", "corpus"), c.setdefault("shape", "corpus")
             cases.append(c)
-    cases.append({"S": 1, "C": 2, "h": 4, "w": 4, "den": 8, "thr": 0.1, "r": 1, "kind": "fixed", "shape": "fixed",
+    cases.append({"S": 1, "C": 2, "h": 4, "w": 4, "den": 8, "thr": 0.1, "p": 3, "kind": "fixed", "shape": "fixed",
                   "maps": [[[0, 0, 0, 8], [0, 0, 0, 0], [0, 0, 0, 0], [8, 0, 0, 0]],      # F-C07 pattern
                            [[0, 0, 0, 0], [0, 0, 0, 0], [0, 0, 0, 0], [0, 0, 0, 0]]]})    # all below threshold
-    cases.append({"S": 1, "C": 1, "h": 3, "w": 3, "den": 8, "thr": 1.0, "r": 1, "kind": "fixed", "shape": "fixed",
+    cases.append({"S": 1, "C": 1, "h": 3, "w": 3, "den": 8, "thr": 1.0, "p": 4, "kind": "fixed", "shape": "fixed",
                   "maps": [[[0, 0, 0], [0, 8, 0], [0, 0, 0]]]})                           # max == thr is kept
-    cases.append({"S": 2, "C": 1, "h": 2, "w": 3, "den": 8, "thr": 0.2, "r": 2, "kind": "fixed", "shape": "fixed",
+    cases.append({"S": 2, "C": 1, "h": 2, "w": 3, "den": 8, "thr": 0.2, "p": 5, "kind": "fixed", "shape": "fixed",
                   "maps": [[[8, 8, 8], [8, 8, 8]], [[1, 1, 1], [1, 1, 1]]]})              # plateau; first cell
     for _ in range(chk.n(1000, 8000)):
         cases.append(gen_case(rng))
@@ -433,7 +443,7 @@ def replay(chk: Check, payload):
         return
     case.setdefault("kind", "replay"), case.setdefault("shape", "replay")
     m = run_driver("C07.lean", [model_line(case, I.tensor(case))])[0]
-    print(f"replay case={ {k: case[k] for k in ('S', 'C', 'h', 'w', 'thr', 'r')} } maps={case['maps']} model={m[:300]}")
+    print(f"replay case={ {k: case[k] for k in ('S', 'C', 'h', 'w', 'thr')} } p={patch_size(case)} maps={case['maps']} model={m[:300]}")
     f07 = next((e for e in chk.known if e["id"] == "F-C07"), None)
     run_case(chk, I, case, m, bool(f07 and f07["status"] == "known"))
 
@@ -446,17 +456,18 @@ if __name__ == "__main__":
             "Lean 4.33 kernel; axioms ⊆ {propext, Classical.choice, Quot.sound} (audited per run)",
             "hand-written model Peaks.lean of find_global_peaks_rough (repaired: flat argmax + unravel; as-is: separate argmaxes) and "
             "find_global_peaks; tied to /repo by exact comparison (cell, value, validity) and 5e-5·cond comparison (refined points) on the explored maps only",
-            "torch.max returns the first index on ties (CPU; documented, measured); kornia crop_and_resize = unit sampling at integer "
-            "offsets with zero padding for odd patch sizes: modelled, validated by the correspondence",
+            "torch.max returns the first index on ties (CPU; documented, measured); kornia crop_and_resize = align_corners sampling at "
+            "c-(p-1)/2+k (cells for odd p, bilinear mean of four cells for even p) with zero padding: modelled, validated by the correspondence",
             "float32 comparisons coincide with comparisons of the rationals the float32 values denote (exact)",
         ],
         rule="S,C in 1..3, maps 1x1 / 1xN / Nx1 / up to 9x9 on the 1/8 or 1/16 lattice (few-level fields, 2-4 tied maxima biased to "
              "borders/corners and to different rows AND columns, unique border maxima, all-low, constant; with and without negative "
-             "values; mixed valid/invalid channels), 7 thresholds, patch 3/5/7 or none; plus float32 Gaussian bumps (sigma 0.75..2.5, "
+             "values; mixed valid/invalid channels), 7 thresholds, integral_patch_size 1..8 (odd and even) or none; plus float32 Gaussian bumps (sigma 0.75..2.5, "
              "sub-pixel centres on 1/16, inside and at the border); distinct = distinct (shape, thr, patch, map bytes) with >= 1 valid "
              "channel and more than one cell",
         assumptions=[
-            "finite maps with h, w >= 1; odd integral_patch_size >= 3 (p = 1 raises inside kornia; even p samples half-integer positions)",
+            "finite maps with h, w >= 1; integral_patch_size 1..8: odd p reads cells, even p reads means of four cells (half-integer "
+            "sampling), both modelled; p = 1 raises inside kornia (F-C06p1) where the model gives offset 0",
             "refinement bound proved for non-negative maps / positive threshold only (F-C06 applies here too); negative patches sampled "
             "every run with the oracle (excluded_region_cases) — search, not proof",
             "toward-centre / symmetric-unmoved are theorems for patches inside the map; border patches (zero padding breaks the symmetry) "
